@@ -400,6 +400,37 @@ def run(ctx) -> None:
                     scalar_memos.append((rel, q, attr))
                     continue
                 hits.append((mm, q, node, attr, kind))
+    # class-level collections (list/dict/set displays in a class body) are shared by every load: never mutated in place, directly
+    # or through an uncopied local alias.  Frozen exception: the set that de-duplicates log messages.
+    LOG_ONLY = {"_suppressed_warnings": "read only by suppressed_warning() to decide whether a message is logged again"}
+    n_classes = 0
+    for rel in ("python/experiment/model/conf.py", "python/experiment/model/frontends/flowir.py", "python/experiment/model/frontends/dosini.py",
+                "python/experiment/model/frontends/dsl.py", "python/experiment/model/graph.py", "python/experiment/model/storage.py",
+                "python/experiment/model/data.py"):
+        mm = ctx.repo.module(rel)
+        for c in ast.walk(mm.tree):
+            if not isinstance(c, ast.ClassDef):
+                continue
+            consts = state.class_mutable_constants(c) - set(LOG_ONLY)
+            if not consts:
+                continue
+            n_classes += 1
+            for q, f in mm.functions.items():
+                if q.count(".") > 1:
+                    continue
+                for (node, cname, how) in state.shared_constant_mutations(f, consts, {c.name}):
+                    hits.append((mm, q, node, "%s.%s" % (c.name, cname), "in-place mutation (%s)" % how))
+    # the exception stays an exception only while nothing but the logger reads it
+    for rel in ("python/experiment/model/conf.py", "python/experiment/model/frontends/dosini.py"):
+        mm = ctx.repo.module(rel)
+        readers = {q for q, f in mm.functions.items() for x in ast.walk(f)
+                   if isinstance(x, ast.Attribute) and x.attr in LOG_ONLY and q.count(".") <= 1}
+        ok_ = all(q.split(".")[-1] == "suppressed_warning" for q in readers)
+        ctx.ob("C15.R6-no-process-wide-memo", mm.tree, ok_,
+               "the log de-duplication set is read by suppressed_warning() only" if ok_ else
+               "the class-level set _suppressed_warnings is read outside suppressed_warning() (%s): it is process-wide state and may no "
+               "longer be exempted" % sorted(readers), construct="%s: _suppressed_warnings is log-only" % rel.split("/")[-1], trivial=True)
+    ctx.floor("C15.R6-no-process-wide-memo", n_classes, 5, "classes with class-level collections on the load path")
     for (mm, q, node, attr, kind) in hits:
         ctx.ob("C15.R6-no-process-wide-memo", node, False,
                "%s keeps process-wide state in the class attribute %s (%s of a mutable object): whatever is remembered there is shared by "
